@@ -525,6 +525,28 @@ func (env *Env) call(n *ast.CallExpr) Term {
 				return v
 			}
 		}
+		if id.Name == "callres" {
+			// callres(F, k): the value returned by the k-th call of a function named F in the function under verification
+			fname := exprString(n.Args[0])
+			k := 0
+			if len(n.Args) > 1 {
+				if bl, ok := n.Args[1].(*ast.BasicLit); ok {
+					fmt.Sscanf(bl.Value, "%d", &k)
+				}
+			}
+			return env.e.callResult(fname, k)
+		}
+		if so, ok := env.e.p.ghostFields[id.Name]; ok {
+			v := env.ev(n.Args[0])
+			hv := ghostFieldVar(u, id.Name, so)
+			var rt types.Type = types.Typ[types.Int]
+			if so == SBool {
+				rt = types.Typ[types.Bool]
+			} else if so == SString {
+				rt = types.Typ[types.String]
+			}
+			return mk(app("select", env.heap.get(hv), v.S), so, rt)
+		}
 		// ghost / spec function?
 		if sf := env.e.p.specFuncs[id.Name]; sf != nil {
 			return env.specCall(sf, n.Args)
@@ -1220,4 +1242,53 @@ func normalizeBound(s string) string {
 		m[x] = r
 		return r
 	})
+}
+
+func ghostFieldVar(u *Universe, name string, so Sort) string {
+	hv := "F_$ghost_" + sanitize(name)
+	if _, ok := u.heapSorts[hv]; !ok {
+		u.heapSorts[hv] = fmt.Sprintf("(Array Int %s)", so)
+	}
+	return hv
+}
+
+// callResult: value of the k-th call (in block order) to a callee whose name ends in fname.
+func (e *Exec) callResult(fname string, k int) Term {
+	n := 0
+	for _, b := range e.fn.Blocks {
+		for _, ins := range b.Instrs {
+			c, ok := ins.(*ssa.Call)
+			if !ok {
+				continue
+			}
+			name := ""
+			if f := c.Common().StaticCallee(); f != nil {
+				name = f.Name()
+			} else if c.Common().IsInvoke() {
+				name = c.Common().Method.Name()
+			}
+			if name != fname {
+				continue
+			}
+			if n == k {
+				if t, ok := e.vals[c]; ok {
+					return t
+				}
+				// not executed on this path: any value
+				key := fmt.Sprintf("callres:%s:%d", fname, k)
+				if t, ok := e.undefLocals[key]; ok {
+					return t
+				}
+				if e.undefLocals == nil {
+					e.undefLocals = map[string]Term{}
+				}
+				t := e.havocVal(c.Type(), "callres_"+fname, nil)
+				e.undefLocals[key] = t
+				return t
+			}
+			n++
+		}
+	}
+	cfail("callres: no call #%d of %s", k, fname)
+	return Term{}
 }
